@@ -4,6 +4,7 @@ import CCVerif.Model.WfAst
 import CCVerif.Model.AstQuery
 import CCVerif.Model.Strings
 import CCVerif.Model.PPFragment
+import CCVerif.Model.Convert
 import Driver.AstWire
 import Driver.Util
 /-! Driver ops of C05 (`c05 …`) and C06 (`c06 …`). Each op prints `model<TAB>spec`.
@@ -158,6 +159,52 @@ def handle (args : List String) : String :=
       | some none => "nop\tn/a"
       | some (some t) => s!"{printParse dst t}\t1 x"
     | _, _ => "bad-op\tn/a"
+  | ["convert", d, h] =>
+    -- `ConvertTo(text, d)`: the model is the definition (Model/Convert.lean), no separate specification
+    match synOf d with
+    | some dst =>
+      match CCVerif.Convert.convertTo dst (parseHex h) with
+      | .outside => "skip\tn/a"
+      | .stuck => "fault:stuck\tn/a"
+      | .text b => s!"{toHex b}\tn/a"
+    | none => "bad-op\tn/a"
+  | ["convback", s, h] =>
+    -- to the other syntax and back: the text parses to the tree it had (local names transliterated once)
+    match synOf s with
+    | some src =>
+      let input := parseHex h
+      match CCVerif.Convert.parseBytes (some src) input with
+      | none => "skip\tn/a"
+      | some none => "nop\tn/a"
+      | some (some t) =>
+        match CCVerif.Convert.convertTo (CCVerif.Convert.other src) input with
+        | .text a =>
+          match CCVerif.Convert.convertTo src a with
+          | .text b =>
+            match CCVerif.Convert.parseBytes (some src) b with
+            | some (some t2) => s!"{if Ast.eqv t2 (translit .ascii t) then "1" else "0"} {toHex b}\t1 x"
+            | some none => s!"noparse {toHex b}\t1 x"
+            | none => "skip\t1 x"
+          | .stuck => "fault:stuck\t1 x"
+          | .outside => "skip\t1 x"
+        | .stuck => "fault:stuck\t1 x"
+        | .outside => "skip\t1 x"
+    | none => "bad-op\tn/a"
+  | ["convidem", d, h] =>
+    -- converting the converted text again to the same target changes nothing
+    match synOf d with
+    | some dst =>
+      let input := parseHex h
+      match CCVerif.Convert.parseBytes (some (CCVerif.Convert.other dst)) input with
+      | none => "skip\tn/a"
+      | some none => "nop\tn/a"
+      | some (some _) =>
+        match CCVerif.Convert.convertTo dst input, CCVerif.Convert.convertTwice dst input with
+        | .text a, .text aa => s!"{if a == aa then "1" else "0"} {toHex aa}\t1 x"
+        | .stuck, _ => "fault:stuck\t1 x"
+        | _, .stuck => "fault:stuck\t1 x"
+        | _, _ => "skip\t1 x"
+    | none => "bad-op\tn/a"
   | _ => "bad-op\tn/a"
 
 /-- the dedicated generators of the two recorded-finding classes use their own op names -/
@@ -167,6 +214,13 @@ def handleAll (args : List String) : String :=
   | "pp-overflow" :: r => handle ("printparse" :: r)
   | "rt-translit" :: r => handle ("roundtrip" :: r)
   | "rt-overflow" :: r => handle ("roundtrip" :: r)
+  | "convert-translit" :: r => handle ("convert" :: r)
+  | "convert-overflow" :: r => handle ("convert" :: r)
+  | "convback-translit" :: r => handle ("convback" :: r)
+  | "convback-overflow" :: r => handle ("convback" :: r)
+  | "convidem-translit" :: r => handle ("convidem" :: r)
+  | "convidem-overflow" :: r => handle ("convidem" :: r)
+  | "convidem-amb" :: r => handle ("convidem" :: r)
   | _ => handle args
 
 def handle06 (args : List String) : String :=
